@@ -10,6 +10,7 @@ structure DateState where
   cals : Std.HashMap Nat Cal := {}
   drs : Std.HashMap Nat DR := {}
   names : Std.HashMap String Cal := {}
+  calNames : Std.HashMap Nat String := {}
 
 def fuel : Nat := 6000
 
@@ -98,7 +99,7 @@ def dateStep (st : DateState) (toks : List String) : Option (DateState × String
     -- the name travels hex-encoded (UTF-8 bytes) so that it may contain any character
     let name ← decodeHexStr hexname
     match namedTryNew (fun s => st.names.get? s) name with
-    | .ok (_, u) => pure ({ st with drs := st.drs.insert id u.toDR }, "ok")
+    | .ok (nm, u) => pure ({ st with drs := st.drs.insert id u.toDR, calNames := st.calNames.insert id nm }, "ok")
     | .err => pure (st, "err")
     | .panic _ => pure (st, "panic")
   | ["isbus", h, d] => do
